@@ -78,7 +78,8 @@ def run(ctx):
         jobs.append((algo, "vector", shared, 4, ctx.seed + 600, "lr-shared"))
     # Mutations(mutate_elite=False): the first member of the population draws no mutation; after learn steps (targets lag behind) it
     # still leaves the mutation round with its targets re-synchronised, like every other member
-    noel = [("create", 1, 80), ("clone", 1, 2, 1), ("clone", 1, 3, 2), ("learn", 1, 1), ("learn", 2, 2), ("learn", 3, 3), ("learn", 1, 4),
+    # (the clones get indices that are NOT in list order: position in the population and index are unrelated)
+    noel = [("create", 1, 80), ("clone", 1, 2, 7), ("clone", 1, 3, 3), ("learn", 1, 1), ("learn", 2, 2), ("learn", 3, 3), ("learn", 1, 4),
             ("mutpop", "param", "noelite"), ("learn", 1, 5), ("learn", 2, 5), ("mutpop", "arch", "noelite"), ("learn", 1, 6), ("learn", 3, 6),
             ("mutpop", "hp", "noelite"), ("learn", 1, 7)]
     for algo in zoo.ALGOS:
